@@ -67,6 +67,7 @@ Example C21_partial_nonvacuous :
   c21_lower p = Some f /\ alloc_ok alloc f = true /\ pushed unrepaired W64 alloc f = [3]
   /\ has_stk (vf_defs f) = false.
 Proof. vm_compute. repeat split. Qed.
+Print Assumptions C21_partial_nonvacuous.
 
 (* full statement for a prologue pass that rebases the offsets (the proposed repair C21-1) *)
 Theorem C21_returns_source_value_repaired : forall ver p f alloc raw entry_rsp ra s0 v,
@@ -144,10 +145,10 @@ Theorem C21_callee_saved_narrow_refuted :
 Proof. exact callee_saved_narrow_refuted. Qed.
 Print Assumptions C21_callee_saved_narrow_refuted.
 
-(* `imul` on 8-bit registers is emitted for i8 multiplication and is not an instruction; every other width only
-   yields encodable instructions of the subset *)
+(* `imul` on 8-bit registers is emitted for i8 multiplication (by the lowering that does not refuse it:
+   c21_lower_v false) and is not an instruction; every other width only yields encodable instructions *)
 Theorem C21_imul8_not_encodable :
-  exists p f alloc ver, c21_lower p = Some f /\ alloc_ok alloc f = true
+  exists p f alloc ver, c21_lower_v false p = Some f /\ alloc_ok alloc f = true
     /\ forallb encodable (c21_finish ver (sp_w p) alloc f) = false.
 Proof. exact imul8_not_encodable. Qed.
 Print Assumptions C21_imul8_not_encodable.
